@@ -36,11 +36,12 @@ func (c12) Thresholds(tier string) map[string]int64 {
 		"extra-next-calls":                20000,
 		"restore-after-end-revives":       300,
 		"end-with-ysgo-statements-left=0": 500,
+		"stop-with-words-reported-the-end": 1000,
 	}
 }
 
 func (c12) Rule() string {
-	return "case = one generated program with a raised share of <<stop>> statements (at nesting depth 0-6, with statements after the stop in the same and in enclosing bodies) and of option groups that end a node (some with empty bodies); every enumerated path is driven to its end, then 10 further Next calls are made with arguments drawn from {0,1,-1,7,maxint,minint}. Oracle: each returns (nil,nil) without panicking and without any host-function, command or variable-store write event (recorded at the host boundary); finally a snapshot taken at the end is restored and the runner must run again exactly as the model does from that node entry. Non-trivial: the end was reached with statements left in the continuation (stop) or right after an option group. Distinct by hash of scripts+choices."
+	return "case = one generated program with a raised share of <<stop>> statements (at nesting depth 0-6, with statements after the stop in the same and in enclosing bodies) and of option groups that end a node (some with empty bodies); every enumerated path is driven to its end, then 10 further Next calls are made with arguments drawn from {0,1,-1,7,maxint,minint}. Oracle: each returns (nil,nil) without panicking and without any host-function, command or variable-store write event (recorded at the host boundary); finally a snapshot taken at the end is restored and the runner must run again exactly as the model does from that node entry. A second sub-workload writes the stop with extra words (<<stop now>>, <<stop {\"why\"}>>) nested 0-4 levels deep with statements after it at every level; nothing is predicted about such a command, but IF the runner reports the end, the end must be absorbing. Non-trivial: the end was reached with statements left in the continuation (stop) or right after an option group. Distinct by hash of scripts+choices."
 }
 
 func (c12) Assumptions() []string {
@@ -60,6 +61,10 @@ func (p c12) Run(c *core.Ctx) {
 	cfg.MaxDepth = 6
 	if c.Idx%3 == 1 {
 		cfg.WStop = 3 // more ends by running off the node
+	}
+	p.stopWithWords(c)
+	if c.Failed() {
+		return
 	}
 	prog := gen.Flow(c.R, cfg)
 	scripts := hast.Render(prog, hast.L0())
@@ -161,4 +166,90 @@ func (p c12) Run(c *core.Ctx) {
 				c.Sample(map[string]any{"readers": scripts, "choices": pr.choices, "trace": pair.Trace})
 			}
 		})
+}
+
+// stopWithWords covers ends reported by a stop command written with extra words or
+// expressions (<<stop now>>, <<stop {$why}>>). Whether such a command ends the
+// dialogue or is refused is not settled by the property texts, so nothing is
+// predicted: the runner is driven until it reports the end or an error, and only
+// IF it reported the end must every later call report the end again without any
+// host event or store write.
+func (c12) stopWithWords(c *core.Ctx) {
+	r := c.R
+	id := 0
+	line := func(p string) *hast.Stmt {
+		id++
+		return &hast.Stmt{K: hast.SLine, Parts: []hast.Part{hast.Lit(fmt.Sprintf("%s%d", p, id))}, ID: id}
+	}
+	stop := &hast.Stmt{K: hast.SCommand, Name: "stop", Args: []hast.CmdArg{{Word: r.Pick("now", "1", "true")}}}
+	if r.Bool() {
+		stop.Args = []hast.CmdArg{{X: hast.Str("why")}}
+	}
+	after := func() []*hast.Stmt {
+		var b []*hast.Stmt
+		for k := r.Range(1, 3); k > 0; k-- {
+			switch r.Intn(3) {
+			case 0:
+				b = append(b, line("after"))
+			case 1:
+				id++
+				b = append(b, &hast.Stmt{K: hast.SSet, Var: "leak", Op: "=", X: hast.Num(fmt.Sprint(id)), ID: id})
+			default:
+				id++
+				b = append(b, &hast.Stmt{K: hast.SCommand, Name: "act", Args: []hast.CmdArg{{Word: fmt.Sprint("leak", id)}}, ID: id})
+			}
+		}
+		return b
+	}
+	// nest the stop 0-4 levels deep, with statements after it at every level
+	body := append([]*hast.Stmt{stop}, after()...)
+	depth := r.Intn(5)
+	for d := 0; d < depth; d++ {
+		var st *hast.Stmt
+		if r.Bool() {
+			st = &hast.Stmt{K: hast.SIf, Clauses: []*hast.Clause{{Cond: hast.Bool(true), Body: body}}}
+		} else {
+			st = &hast.Stmt{K: hast.SOptions, Options: []*hast.Option{{Parts: []hast.Part{hast.Lit("go")}, Body: body}}}
+		}
+		body = append([]*hast.Stmt{line("pre"), st}, after()...)
+	}
+	prog := &hast.Program{Readers: 1, Nodes: []*hast.Node{{Title: "Start", Body: body}, {Title: "Next", Body: []*hast.Stmt{line("fallthrough")}}}}
+	scripts := hast.Render(prog, hast.L0())
+	log := &mon.HostLog{}
+	st := mon.NewRecStorer()
+	rr, err, pan := mon.Create(st, "", scripts)
+	if err != nil || pan != "" {
+		c.Violate("a generated, syntactically valid program failed to load", map[string]any{"readers": scripts, "error": fmt.Sprint(err), "panic": pan})
+		return
+	}
+	rr.Install(mon.FlowFuncs(log), mon.FlowCmds(log))
+	var trace []string
+	for step := 0; step < 40; step++ {
+		o := rr.Next(0)
+		trace = append(trace, o.String())
+		if o.Kind == mon.KErr {
+			c.Feature("stop-with-words-refused")
+			return
+		}
+		if o.Kind == mon.KPanic {
+			c.Violate("Next panicked on a stop command written with extra words", map[string]any{"readers": scripts, "trace": trace})
+			return
+		}
+		if o.Kind == mon.KEnd {
+			c.Feature("stop-with-words-reported-the-end")
+			events, writes := len(log.E), st.Writes
+			for i := 0; i < 6; i++ {
+				arg := extraArgs[r.Intn(len(extraArgs))]
+				g := rr.Once(arg)
+				trace = append(trace, fmt.Sprintf("after the end: Next(%d) = %s", arg, g))
+				c.Feature("extra-next-calls")
+				if g.Kind != mon.KEnd || len(log.E) != events || st.Writes != writes {
+					c.Violate("the end of the dialogue is not absorbing (end reported by a stop command with extra words): "+g.String(),
+						map[string]any{"readers": scripts, "trace": trace, "host_events_after_end": log.E[events:], "store_writes_after_end": st.Writes - writes})
+					return
+				}
+			}
+			return
+		}
+	}
 }
